@@ -60,6 +60,20 @@ fn bind(ip: Ipv4Addr) -> std::io::Result<Sock> {
     Ok(Sock { s, addr })
 }
 
+/// A set-up step (bind a peer socket, start a worker, add the listener / the routes) is retried a few
+/// times with a growing pause; the caller declares the case inconclusive if it still fails.
+fn retry<T, E: std::fmt::Display>(mut f: impl FnMut() -> Result<T, E>) -> Result<T, String> {
+    let mut last = String::new();
+    for attempt in 0..5u32 {
+        match f() {
+            Ok(v) => return Ok(v),
+            Err(e) => last = e.to_string(),
+        }
+        std::thread::sleep(Duration::from_millis(40 << attempt));
+    }
+    Err(last)
+}
+
 #[derive(Debug, Clone)]
 struct Dgram {
     sock: usize, // index into Net.socks
@@ -205,13 +219,33 @@ struct Case {
     observed: Vec<String>, // one observation line per trace op that has one
     trace_ok: bool,     // false once timing was ambiguous / a datagram was retried
     tainted: bool,
+    /// a set-up step failed after its retries, or the harness itself tripped: the case says nothing.
+    /// Counted in the distribution, never a failure by itself (the run fails above 5 %).
+    inconclusive: Option<String>,
+}
+
+thread_local! {
+    /// the oracle failures of the case this thread is running: what a harness panic must not swallow
+    static FAILS_SO_FAR: std::cell::RefCell<Vec<(String, String)>> = std::cell::RefCell::new(vec![]);
 }
 
 impl Case {
+    fn new() -> Case {
+        Case { fails: vec![], tags: BTreeMap::new(), log: vec![], trace: vec![], observed: vec![], trace_ok: true, tainted: false, inconclusive: None }
+    }
     fn fail(&mut self, class: &str, detail: String) {
         if self.fails.len() < 6 {
+            FAILS_SO_FAR.with(|f| f.borrow_mut().push((class.to_string(), detail.clone())));
             self.fails.push((class.to_string(), detail));
         }
+    }
+    /// stop judging this case: the harness (not the subject) could not do its part
+    fn give_up(&mut self, what: &str, detail: String) {
+        if self.inconclusive.is_none() {
+            self.inconclusive = Some(format!("{what}: {detail}"));
+        }
+        self.trace_ok = false;
+        self.tainted = true;
     }
     fn tag(&mut self, t: &str) {
         *self.tags.entry(t.to_string()).or_insert(0) += 1;
@@ -272,23 +306,52 @@ struct World {
 
 const CLUSTER: &str = "udpc";
 
+fn cluster_msg_of(k: &Knobs, lb: LoadBalancingAlgorithms) -> Cluster {
+    Cluster {
+        load_balancing: lb as i32,
+        udp: Some(UdpClusterConfig {
+            affinity_key: Some(if k.wp { UdpAffinityKey::SourceIpPort } else { UdpAffinityKey::SourceIp } as i32),
+            responses: Some(k.responses),
+            requests: Some(k.requests),
+            send_proxy_protocol: Some(k.pp),
+            proxy_protocol_every_datagram: Some(k.every),
+            health: None,
+        }),
+        ..cluster(CLUSTER)
+    }
+}
+
+/// worker + listener + cluster + frontend + the first `backends`: one set-up unit (retried as a whole
+/// with a fresh worker)
+fn bring_up(k: &Knobs, lb: LoadBalancingAlgorithms, backends: &[SocketAddr]) -> RigResult<(Worker, SocketAddr)> {
+    let mut w = Worker::start(WorkerOpts { log_level: "off".into(), ..Default::default() })?;
+    let r = (|| -> RigResult<SocketAddr> {
+        let front = add_listener(&mut w, k)?;
+        w.add_cluster(cluster_msg_of(k, lb))?;
+        w.add_udp_frontend(front, CLUSTER)?;
+        for (b, a) in backends.iter().enumerate() {
+            w.add_backend(CLUSTER, &format!("b{b}"), *a)?;
+        }
+        Ok(front)
+    })();
+    match r {
+        Ok(front) => Ok((w, front)),
+        Err(e) => {
+            w.stop();
+            Err(e)
+        }
+    }
+}
+
 impl World {
     fn ms(&self, t: Instant) -> u64 {
         t.duration_since(self.t0).as_millis() as u64
     }
     fn cluster_msg(&self) -> Cluster {
-        Cluster {
-            load_balancing: self.lb as i32,
-            udp: Some(UdpClusterConfig {
-                affinity_key: Some(if self.k.wp { UdpAffinityKey::SourceIpPort } else { UdpAffinityKey::SourceIp } as i32),
-                responses: Some(self.k.responses),
-                requests: Some(self.k.requests),
-                send_proxy_protocol: Some(self.k.pp),
-                proxy_protocol_every_datagram: Some(self.k.every),
-                health: None,
-            }),
-            ..cluster(CLUSTER)
-        }
+        cluster_msg_of(&self.k, self.lb)
+    }
+    fn sock_of(&self, a: &SocketAddr) -> Option<usize> {
+        self.net.socks.iter().position(|s| s.addr == *a)
     }
     fn cfg_words(&self) -> String {
         format!(
@@ -701,7 +764,10 @@ impl World {
         for _ in 0..n {
             let fi = *rng.pick(&usable);
             let client = self.flows[fi].client;
-            let ci = self.net.socks.iter().position(|s| s.addr == client).unwrap();
+            let Some(ci) = self.sock_of(&client) else {
+                self.c.give_up("harness-invariant", format!("no socket for client {client}"));
+                return;
+            };
             self.seq += 1;
             let len = rng.range(8, self.k.max_rx.min(1400) as u64) as usize;
             let p = make_payload(ci, self.seq, len);
@@ -805,7 +871,10 @@ impl World {
         };
         for _ in 0..rounds {
             let fa = *rng.pick(&usable);
-            let ca = self.net.socks.iter().position(|s| s.addr == self.flows[fa].client).unwrap();
+            let Some(ca) = self.sock_of(&self.flows[fa].client) else {
+                self.c.give_up("harness-invariant", format!("no socket for client {}", self.flows[fa].client));
+                return;
+            };
             let p = mk(self, ca, rng);
             plan.push((Some(fa), ca, p));
             let cb = self.spare_next;
@@ -814,7 +883,10 @@ impl World {
             plan.push((None, cb, p));
             for _ in 0..rng.range(1, 2) {
                 let fa = *rng.pick(&usable);
-                let ca = self.net.socks.iter().position(|s| s.addr == self.flows[fa].client).unwrap();
+                let Some(ca) = self.sock_of(&self.flows[fa].client) else {
+                    self.c.give_up("harness-invariant", format!("no socket for client {}", self.flows[fa].client));
+                    return;
+                };
                 let p = mk(self, ca, rng);
                 plan.push((Some(fa), ca, p));
             }
@@ -842,17 +914,17 @@ impl World {
                 None => self.unexpected(d, "during a same-pass burst"),
             }
         }
-        if seen.iter().any(|x| x.is_none()) {
+        let Some(seen) = seen.into_iter().collect::<Option<Vec<_>>>() else {
             // loss (or a shed we did not predict): do not judge
             self.c.tag("udp-loss-in-burst");
             self.c.trace_ok = false;
             self.c.tainted = true;
             return;
-        }
+        };
         self.c.tr(format!("to {now_ms}"));
         let mut new_socks: Vec<(usize, SocketAddr)> = vec![];
         for (i, (owner, ci, p)) in plan.iter().enumerate() {
-            let (bidx, from, data) = seen[i].clone().unwrap();
+            let (bidx, from, data) = seen[i].clone();
             let baddr = self.backend_sock(bidx).addr;
             let client = self.net.socks[*ci].addr;
             self.c.tr(format!("c {} {} {}", addr_str(&client), hex(p), now_ms));
@@ -933,10 +1005,21 @@ impl World {
         std::thread::sleep(Duration::from_millis(ms));
     }
 
+    /// A worker request of the running case did not succeed. FAILURE answers and a dead / wedged worker are the
+    /// subject's doing (a failure); a time-out or channel hiccup after which the worker answers `Status` again
+    /// is load on the machine: we no longer know which configuration is in force, so the case is not judged.
+    fn request_failed(&mut self, what: &str, e: RigError) {
+        match e {
+            RigError::Timeout(_) | RigError::Channel(_) | RigError::Io(_) if self.w.alive().is_alive() => {
+                self.c.give_up("worker-request-timeout", format!("{what}: {e:?}"))
+            }
+            e => self.c.fail("worker-request-failed", format!("{what}: {e:?}")),
+        }
+    }
     fn push_cluster(&mut self) {
         let msg = self.cluster_msg();
         if let Err(e) = self.w.add_cluster(msg) {
-            self.c.fail("worker-request-failed", format!("AddCluster: {e:?}"));
+            self.request_failed("AddCluster", e);
         }
         let w = self.cfg_words();
         self.c.tr(format!("cfg {w}"));
@@ -951,7 +1034,7 @@ impl World {
             max_flows: Some(self.k.cap as u32),
         };
         if let Err(e) = self.w.request_ok(RequestType::UpdateUdpListener(patch)) {
-            self.c.fail("worker-request-failed", format!("UpdateUdpListener: {e:?}"));
+            self.request_failed("UpdateUdpListener", e);
         }
         let w = self.cfg_words();
         self.c.tr(format!("cfg {w}"));
@@ -1018,67 +1101,58 @@ fn run_case(seed: u64, case: u64, thorough: bool, driver: &str) -> (Case, Value)
         max_rx: *rng.pick(&[64usize, 512, 1500, 1500]),
     };
     let lb = *rng.pick(&[LoadBalancingAlgorithms::RoundRobin, LoadBalancingAlgorithms::RoundRobin, LoadBalancingAlgorithms::Random]);
-    let mut c = Case { fails: vec![], tags: BTreeMap::new(), log: vec![], trace: vec![], observed: vec![], trace_ok: true, tainted: false };
+    FAILS_SO_FAR.with(|f| f.borrow_mut().clear());
+    let mut c = Case::new();
     let desc = json!({"case": case, "shape": shape, "knobs": format!("{:?}", k), "lb": format!("{:?}", lb)});
 
     let nips = rng.range(1, 3) as usize;
     let nports = rng.range(1, 3) as usize;
     let nb = rng.range(1, 3) as usize;
-    let mut socks = vec![];
+    // peer sockets: main clients, then brand-new client sources for the "same drain pass" bursts (one fresh
+    // source IP each: a new key in both modes), then the backends (one spare to be added mid-run) on a
+    // per-case loopback address: no other case's (or process's) socket shares an address with ours, whatever
+    // ports the kernel re-uses
+    let mut ips: Vec<(&str, Ipv4Addr)> = vec![];
     for i in 0..nips {
         for _ in 0..nports {
-            match bind(Ipv4Addr::new(127, 0, 0, 2 + i as u8)) {
-                Ok(s) => socks.push(s),
-                Err(e) => {
-                    c.fail("harness-setup", format!("bind client: {e}"));
-                    return (c, desc);
-                }
-            }
+            ips.push(("bind client", Ipv4Addr::new(127, 0, 0, 2 + i as u8)));
         }
     }
-    let nmain = socks.len();
-    // brand-new client sources for the "same drain pass" bursts: one fresh source IP each (a new key in both modes)
+    let nmain = ips.len();
     for i in 0..14u8 {
-        match bind(Ipv4Addr::new(127, 0, 0, 20 + i)) {
-            Ok(s) => socks.push(s),
-            Err(e) => {
-                c.fail("harness-setup", format!("bind spare client: {e}"));
-                return (c, desc);
-            }
-        }
+        ips.push(("bind spare client", Ipv4Addr::new(127, 0, 0, 20 + i)));
     }
-    let nclients = socks.len();
+    let nclients = ips.len();
     for _ in 0..nb + 1 {
-        // one spare backend to be added mid-run; per-case loopback address: no other case's (or process's)
-        // socket shares an address with ours, whatever ports the kernel re-uses
-        match bind(Ipv4Addr::new(127, 1 + (std::process::id() % 120) as u8, (case % 250) as u8 + 1, 1)) {
+        ips.push(("bind backend", Ipv4Addr::new(127, 1 + (std::process::id() % 120) as u8, (case % 250) as u8 + 1, 1)));
+    }
+    let mut socks = vec![];
+    for (what, ip) in ips {
+        match retry(|| bind(ip)) {
             Ok(s) => socks.push(s),
             Err(e) => {
-                c.fail("harness-setup", format!("bind backend: {e}"));
+                c.give_up(what, e);
                 return (c, desc);
             }
         }
     }
-    let mut w = match Worker::start(WorkerOpts { log_level: "off".into(), ..Default::default() }) {
-        Ok(w) => w,
+    let baddrs: Vec<SocketAddr> = socks[nclients..nclients + nb].iter().map(|s| s.addr).collect();
+    // self-test of the inconclusive paths: UDPFLOW_FAULT=setup:<case>[,panic:<case>,...]
+    let fault = |kind: &str| std::env::var("UDPFLOW_FAULT").map(|v| v.split(',').any(|x| x == format!("{kind}:{case}") || x == format!("{kind}:all"))).unwrap_or(false);
+    let (w, front) = match retry(|| if fault("setup") { Err(RigError::Setup("injected set-up fault".into())) } else { bring_up(&k, lb, &baddrs) }) {
+        Ok(x) => x,
         Err(e) => {
-            c.fail("harness-setup", format!("worker: {e:?}"));
+            c.give_up("worker set-up", e);
             return (c, desc);
         }
     };
-    let front = match add_listener(&mut w, &k) {
-        Ok(a) => a,
-        Err(e) => {
-            c.fail("harness-setup", format!("listener: {e:?}"));
-            w.stop();
-            return (c, desc);
-        }
-    };
+    let mut backends_on = vec![true; nb];
+    backends_on.push(false);
     let mut world = World {
         w,
         front,
         net: Net { socks, nclients },
-        backends_on: vec![false; nb + 1],
+        backends_on,
         k,
         lb,
         flows: vec![],
@@ -1089,28 +1163,17 @@ fn run_case(seed: u64, case: u64, thorough: bool, driver: &str) -> (Case, Value)
         to_probe: vec![],
         spare_next: nmain,
     };
-    let setup = (|| -> RigResult<()> {
-        world.w.add_cluster(world.cluster_msg())?;
-        world.w.add_udp_frontend(front, CLUSTER)?;
-        for b in 0..nb {
-            let a = world.backend_sock(b).addr;
-            world.w.add_backend(CLUSTER, &format!("b{b}"), a)?;
-            world.backends_on[b] = true;
-        }
-        Ok(())
-    })();
-    if let Err(e) = setup {
-        world.c.fail("harness-setup", format!("{e:?}"));
-        world.w.stop();
-        return (world.c, desc);
-    }
     let first = format!("new {} {} {}", world.k.cap, world.k.max_rx, world.cfg_words());
     world.c.tr(first);
     world.c.tr("ghost on".into());
 
     let steps = rng.range(14, if thorough { 60 } else { 34 });
     let mut long_idles = 0;
-    for _ in 0..steps {
+    for step in 0..steps {
+        if step == 9 && fault("panic") {
+            world.c.fail("injected-oracle-failure", "found before the injected harness panic".into());
+            panic!("injected harness panic");
+        }
         if world.c.tainted || world.c.fails.len() >= 3 {
             break;
         }
@@ -1224,14 +1287,23 @@ fn run_case(seed: u64, case: u64, thorough: bool, driver: &str) -> (Case, Value)
     for d in world.net.pump(usize::MAX, Duration::from_millis(60)) {
         world.unexpected(&d, "after the last step");
     }
-    match world.w.alive() {
+    // a worker that is slow to answer on a loaded machine is asked again; dead, or wedged three deadlines
+    // in a row, is a failure
+    let mut health = world.w.alive();
+    for _ in 0..2 {
+        if !matches!(health, Health::Wedged) {
+            break;
+        }
+        health = world.w.alive();
+    }
+    match health {
         Health::Alive(_) => {}
         h => world.c.fail("worker-not-alive-after-case", format!("{h:?}")),
     }
     world.w.stop();
 
     // model replay of the datagram trace
-    if !driver.is_empty() && world.c.fails.is_empty() {
+    if !driver.is_empty() && world.c.fails.is_empty() && world.c.inconclusive.is_none() {
         compare_with_model(&mut world.c, driver);
     }
     (world.c, desc)
@@ -1300,20 +1372,27 @@ fn normalise_obs(obs: &str, ops: &[String]) -> String {
 fn probe_idle(n: u64) {
     let (mut same, mut fresh) = (0, 0);
     for i in 0..n {
-        let mut w = Worker::start(WorkerOpts { log_level: "off".into(), ..Default::default() }).unwrap();
         let pk = Knobs { wp: false, pp: false, every: false, responses: 0, requests: 0, fto: 1, bto: 1, cap: 8, max_rx: 1500 };
-        let front = add_listener(&mut w, &pk).unwrap();
-        let c = bind(Ipv4Addr::new(127, 0, 0, 2)).unwrap();
-        let b = bind(Ipv4Addr::new(127, 0, 0, 1)).unwrap();
-        w.add_cluster(cluster(CLUSTER)).unwrap();
-        w.add_udp_frontend(front, CLUSTER).unwrap();
-        w.add_backend(CLUSTER, "b0", b.addr).unwrap();
+        let (c, b) = match (retry(|| bind(Ipv4Addr::new(127, 0, 0, 2))), retry(|| bind(Ipv4Addr::new(127, 0, 0, 1)))) {
+            (Ok(c), Ok(b)) => (c, b),
+            (Err(e), _) | (_, Err(e)) => {
+                println!("probe {i}: inconclusive (bind: {e})");
+                continue;
+            }
+        };
+        let (mut w, front) = match retry(|| bring_up(&pk, LoadBalancingAlgorithms::RoundRobin, &[b.addr])) {
+            Ok(x) => x,
+            Err(e) => {
+                println!("probe {i}: inconclusive (worker set-up: {e})");
+                continue;
+            }
+        };
         let net = Net { socks: vec![c, b], nclients: 1 };
         std::thread::sleep(Duration::from_millis(37 * (i % 5)));
-        net.socks[0].s.send_to(b"first", front).unwrap();
+        let _ = net.socks[0].s.send_to(b"first", front); // a datagram not sent shows as "datagram missing"
         let g1 = net.pump(1, RT);
         std::thread::sleep(Duration::from_millis(3500));
-        net.socks[0].s.send_to(b"second", front).unwrap();
+        let _ = net.socks[0].s.send_to(b"second", front);
         let g2 = net.pump(1, RT);
         match (g1.first(), g2.first()) {
             (Some(a), Some(b)) if a.from == b.from => same += 1,
@@ -1360,12 +1439,20 @@ fn main() {
                             i += nthreads as u64;
                             continue;
                         }
-                        let r = std::panic::catch_unwind(|| run_case(seed, i, thorough, &driver));
+                        let r = std::panic::catch_unwind(std::panic::AssertUnwindSafe(|| run_case(seed, i, thorough, &driver)));
                         match r {
                             Ok((c, d)) => v.push((i, c, d)),
-                            Err(_) => {
-                                let mut c = Case { fails: vec![], tags: BTreeMap::new(), log: vec![], trace: vec![], observed: vec![], trace_ok: false, tainted: true };
-                                c.fail("harness-panic", format!("case {i}"));
+                            Err(payload) => {
+                                // the harness tripped over itself: the case says nothing, except for what its
+                                // oracles had already found
+                                let msg = payload
+                                    .downcast_ref::<String>()
+                                    .cloned()
+                                    .or_else(|| payload.downcast_ref::<&str>().map(|m| m.to_string()))
+                                    .unwrap_or_else(|| "panic without a message".into());
+                                let mut c = Case::new();
+                                c.fails = FAILS_SO_FAR.with(|f| f.borrow().clone());
+                                c.give_up("harness-panic", msg);
                                 v.push((i, c, json!({"case": i})));
                             }
                         }
@@ -1386,7 +1473,17 @@ fn main() {
     let mut failures: Vec<Value> = vec![];
     let mut samples: Vec<Value> = vec![];
     let (mut nontrivial, mut compared, mut flows_total) = (0u64, 0u64, 0u64);
+    let mut inconclusive: Vec<Value> = vec![];
     for (i, c, d) in &results {
+        if let Some(why) = &c.inconclusive {
+            *dist.entry("inconclusive".into()).or_insert(0) += 1;
+            let what = why.split(':').next().unwrap_or("");
+            *dist.entry(format!("inconclusive:{what}")).or_insert(0) += 1;
+            eprintln!("udpflow: case {i} inconclusive: {why}");
+            if inconclusive.len() < 20 {
+                inconclusive.push(json!({"case": i, "why": why}));
+            }
+        }
         for (t, n) in &c.tags {
             *dist.entry(t.clone()).or_insert(0) += n;
         }
@@ -1412,6 +1509,12 @@ fn main() {
             }
         }
     }
+    // more than 5 % inconclusive cases = the run says too little: that is a failure of the harness run
+    let ninc = dist.get("inconclusive").copied().unwrap_or(0);
+    if ninc * 20 > results.len().max(1) as u64 {
+        failures.push(json!({"kind": "oracle", "class": "harness-inconclusive", "case": -1, "ops": [], "impl_out": [], "model_out": [],
+            "detail": format!("{ninc} of {} cases stayed inconclusive after set-up retries (> 5 %)", results.len())}));
+    }
     let res = json!({
         "area": "udpflow",
         "property": args.prop,
@@ -1424,12 +1527,20 @@ fn main() {
         "traces_validated_against_impl": compared,
         "disagreements_checked": results.len(),
         "distribution": dist,
+        "inconclusive": ninc,
+        "inconclusive_cases": inconclusive,
         "flows_created": flows_total,
         "failures": failures,
         "wall_s": t0.elapsed().as_secs_f64(),
     });
     if !args.out.is_empty() {
-        std::fs::write(&args.out, serde_json::to_string_pretty(&res).unwrap()).unwrap();
+        let txt = serde_json::to_string_pretty(&res).unwrap_or_else(|e| format!("{{\"area\": \"udpflow\", \"error\": \"result not serialisable: {e}\"}}"));
+        if let Err(e) = retry(|| std::fs::write(&args.out, &txt)) {
+            // no result file: say so loudly and fail the run, whatever the cases said
+            eprintln!("udpflow: cannot write {}: {e}", args.out);
+            println!("FAIL oracle harness-no-result-file cannot write {}: {e}", args.out);
+            std::process::exit(2);
+        }
     }
     println!(
         "udpflow: {} cases, {} non-trivial, {} flows, {} traces replayed on the model, {} failure(s), {:.1} s",
